@@ -125,6 +125,9 @@ theorem no_equivocation_epochs {rho1 rho2 : List Attest} {R : Nat}
   · have := hi a ha; have := lo b hb; omega
   · exact h2 a ha b hb hr hp hs
 
+/-- an instance of the hypotheses of `no_equivocation_epochs`: round-1 votes of the first run, round-2 votes of the fresh run -/
+example : (∀ a ∈ [(⟨1, 0, 1, 7⟩ : Attest), ⟨1, 0, 2, 7⟩], a.r < 2) ∧ (∀ a ∈ [(⟨2, 0, 1, 8⟩ : Attest)], 2 ≤ a.r) := by decide
+
 /-! ### non-vacuity and the negative result
 
 The toy player soft-votes the first proposal it sees in round 1, period 0, and nothing afterwards. -/
